@@ -14,9 +14,57 @@ META = {
                    "1 <= W <= BITS; INV is a representable W-bit pattern (so exactly one pattern is absent); integer fields: no overflow and exact inverse; "
                    "float fields: |p| <= 2^t (exact conversion), finite results, round-half-away template, and the forward-error bound of "
                    "decode->encode is below 1/2 - u(|p|+1) for the largest pattern, hence E(D(p)) = p for every p (all 2^W patterns, including the "
-                   "34-38-bit fields). A body that does not match the templates is a violation (fail closed). The hand-written SSR lists (1059 / 1065 / 1230) are covered by their quantiser rule (Q-quant) and, for their integer fields (satellite id, signal code, counts), by C16's mask / count / flow clauses, imported: every id pattern of the field's width is accepted by the encoder and written under its own id. Message level: the dispatch tables pair number n with the decode / encode of one macro-built codec module (C14's D-coh, imported), so no message edits a field on its way to or from the field codec.",
+                   "34-38-bit fields). A body that does not match the templates is a violation (fail closed). The hand-written SSR lists (1059 / 1065 / 1230) are covered by their quantiser rule (Q-quant) and, for their integer fields (satellite id, signal code, counts), by C16's mask / count / flow clauses, imported: every id pattern of the field's width is accepted by the encoder and written under its own id. Message level: the dispatch tables pair number n with the decode / encode of one macro-built codec module (C14's D-coh, imported), so no message edits a field on its way to or from the field codec; (F-flow) no function of the decode / encode closures overwrites a field of a message or fragment value with a value built on the spot.",
     "assumptions": ["the negative-zero pattern of sign-magnitude fields is the allowed exception (not a W-bit value of parse's range)"],
 }
+
+
+def rule_field_stores(prog, res):
+    """F-flow: inside the decode and encode closures a message / fragment value is only ever given field values that come from somewhere - a
+    codec's result, an argument, another field.  A store of a value built on the spot (a literal, `None`) into a field of such a value - clearing a
+    word when a neighbouring flag says so, blanking a rate next to an absent phase - edits the field between its codec and the user: decode then
+    encode no longer reproduces the pattern, whatever the field codec does."""
+    import panics
+    from terms import FA, subterms, show
+
+    def base_tys(f, place):
+        ty = f.locals[place["local"]]
+        out = []
+        for p_ in place["proj"]:
+            if p_["k"] == "deref":
+                ty = ty.get("to", {})
+            elif p_["k"] == "field":
+                out.append(ty)
+                ty = p_.get("ty", {})
+            elif p_["k"] in ("index", "constindex"):
+                ty = ty.get("elem", {})
+        return out
+    cl = set(panics.closure(prog, panics.ENC_ROOTS)) | set(panics.closure(prog, panics.DEC_ROOTS))
+    n = 0
+    for p in sorted(cl):
+        f = prog.fns.get(p)
+        if f is None:
+            continue
+        fa = None
+        for b in sorted(f.reachable()):
+            for i, s in enumerate(f.blocks[b]["stmts"]):
+                if not (s["k"] == "assign" and any(x["k"] == "field" for x in s["place"]["proj"])):
+                    continue
+                hit = [t.get("path") for t in base_tys(f, s["place"]) if t.get("k") == "adt" and (t.get("path") or "").startswith(("msg::", "df::dfs::"))
+                       and not (t.get("path") or "").endswith("MessageBuilder")]
+                if not hit:
+                    continue
+                n += 1
+                fa = fa or FA(f, prog)
+                v = fa.rv_term(s["rv"], (b, i))
+                if not any(x.op in ("call", "arg", "mem", "memval", "phi", "loc", "havoc") for x in subterms(v)):
+                    res.fn(f)
+                    res.ob("F-flow", "%s | a field of %s is overwritten with a value built on the spot" % (p, hit[0]), False,
+                           "stored: %s" % show(v, fa.names)[:120], {"file": f.loc["file"], "line": s.get("line") or f.loc["line"]})
+    res.ob("F-flow", "codec closures | field stores into message / fragment values carry codec results, arguments or other fields (never a value built on the spot)",
+           True, "%d stores examined" % n, None, sample={"stores": n})
+    if "all_msgs" in set(prog.crate["features"]):
+        res.floor("F-flow", "field stores examined", n, 300)
 
 
 def run(ctx, res):
@@ -35,6 +83,7 @@ def run(ctx, res):
     # way - clearing words under a flag of a neighbouring field - is a different function)
     import dispatch
     dispatch.coherence(prog, engine.Filtered(res, {"D-coh", "T-dec"}), ctx.repo, dec_keys=dispatch.ROUNDTRIP_KEYS)
+    rule_field_stores(prog, res)
     # the field models read "carrier kind + width" as unsigned / two's-complement / sign-magnitude values: that reading is decided here
     import bitio
     bitio.rule_bitsem(prog, res)
